@@ -17,6 +17,7 @@ type Request struct {
 	Names     []string       `json:"names,omitempty"`
 	Types     []string       `json:"types,omitempty"`
 	PtrCont   bool           `json:"ptrContainer,omitempty"` // container type parameter is *S
+	Cont      string         `json:\"container,omitempty\"`  // another non-struct container type parameter: []S, map[string]S, int, **S
 	HiddenCap bool           `json:"hiddenCap,omitempty"`    // names passed as names[:k] with the missing ones behind the capacity
 	Given     int            `json:"given,omitempty"`        // number of names actually passed (too few names)
 	Expect    string         `json:"expect"`                 // focus | panic | panicOrCorrect
@@ -348,6 +349,16 @@ func GenRequests(t *rapid.T, sh *Shape) []Request {
 		x := nameOK[rapid.IntRange(0, len(nameOK)-1).Draw(t, "ptrVictim")]
 		reqs = append(reqs, Request{Prop: "C02", API: api(), N: 1, ByName: true, Names: []string{x.name}, Types: []string{x.typ}, PtrCont: true, Expect: "panic", Why: "container type parameter is a pointer to the struct", NT: true, Classes: []string{"pointer-container"}})
 		reqs = append(reqs, Request{Prop: "C02", API: api(), N: 1, Types: []string{x.typ}, PtrCont: true, Expect: "panic", Why: "container type parameter is a pointer to the struct (by type)", NT: true, Classes: []string{"pointer-container"}})
+		for _, cont := range []string{"[]S", "map[string]S", "int", "**S"} {
+			if rapid.IntRange(0, 1).Draw(t, "otherCont") == 0 {
+				continue
+			}
+			r := Request{Prop: "C02", API: api(), N: 1, Types: []string{x.typ}, Cont: cont, Expect: "panic", Why: "container type parameter " + cont + " is not a struct", NT: true, Classes: []string{"non-struct-container"}}
+			if rapid.Bool().Draw(t, "contByName") {
+				r.ByName, r.Names = true, []string{x.name}
+			}
+			reqs = append(reqs, r)
+		}
 		// too few names, literal and with the missing names hidden behind the slice capacity
 		for _, hidden := range []bool{false, true} {
 			n := rapid.IntRange(2, 9).Draw(t, "arityFew")
